@@ -162,7 +162,17 @@ pub fn run_workers(args: &Args, nworkers: usize, extra_args: &[String]) -> Stats
                     }
                     cmd.env("RUST_BACKTRACE", "0");
                     cmd.stdout(Stdio::piped()).stderr(Stdio::piped());
+                    // own process group: a worker that is killed (watchdog) or dies must not leave
+                    // forked helpers behind that keep its output pipes open
+                    {
+                        use std::os::unix::process::CommandExt;
+                        cmd.process_group(0);
+                    }
                     let mut child = cmd.spawn().expect("spawn worker");
+                    let pgid = child.id() as i32;
+                    let kill_group = move || unsafe {
+                        libc::kill(-pgid, libc::SIGKILL);
+                    };
                     let out = child.stdout.take().unwrap();
                     let err = child.stderr.take().unwrap();
                     let errh = std::thread::spawn(move || {
@@ -212,12 +222,14 @@ pub fn run_workers(args: &Args, nworkers: usize, extra_args: &[String]) -> Stats
                             Err(std::sync::mpsc::RecvTimeoutError::Timeout) => {
                                 timed_out = true;
                                 let _ = child.kill();
+                                kill_group();
                                 break;
                             }
                             Err(std::sync::mpsc::RecvTimeoutError::Disconnected) => break,
                         }
                     }
                     let status = child.wait().unwrap();
+                    kill_group();
                     let _ = reader.join();
                     if timed_out {
                         let _ = errh.join();
